@@ -349,6 +349,7 @@ pub fn build_typed(n: &Node, env: &Env) -> Built {
       let f = *f;
       Built::V(src.map(move |x: V| {
         let _ = &t;
+        crate::s_val::user_fn_point();
         x.with(f.apply(&x.d))
       }))
     }
@@ -356,6 +357,7 @@ pub fn build_typed(n: &Node, env: &Env) -> Built {
       let p = *p;
       Built::V(src.filter(move |x: V| {
         let _ = &t;
+        crate::s_val::user_fn_point();
         p.test(&x.d)
       }))
     }
@@ -367,6 +369,7 @@ pub fn build_typed(n: &Node, env: &Env) -> Built {
         move |x: V| {
           let _ = &t1;
           l1.lock().unwrap().push(Ev::N(x.d.clone()));
+          crate::s_val::user_fn_point();
           let f = hook.lock().unwrap().take();
           if let Some(f) = f {
             f();
@@ -387,6 +390,7 @@ pub fn build_typed(n: &Node, env: &Env) -> Built {
     Op::DistinctUntilChanged => Built::V(src.distinct_until_changed()),
     Op::Scan => Built::V(src.scan(move |(a, b): (V, V)| {
       let _ = &t;
+      crate::s_val::user_fn_point();
       a + b
     })),
     Op::Skip(k) => Built::V(src.skip(*k)),
@@ -395,6 +399,7 @@ pub fn build_typed(n: &Node, env: &Env) -> Built {
       let p = *p;
       Built::V(src.skip_while(move |x: V| {
         let _ = &t;
+        crate::s_val::user_fn_point();
         p.test(&x.d)
       }))
     }
@@ -408,6 +413,7 @@ pub fn build_typed(n: &Node, env: &Env) -> Built {
       let p = *p;
       Built::V(src.take_while(move |x: V| {
         let _ = &t;
+        crate::s_val::user_fn_point();
         p.test(&x.d)
       }))
     }
@@ -417,6 +423,7 @@ pub fn build_typed(n: &Node, env: &Env) -> Built {
       let p = *p;
       Built::Bool(src.all(move |x: V| {
         let _ = &t;
+        crate::s_val::user_fn_point();
         p.test(&x.d)
       }))
     }
@@ -424,6 +431,7 @@ pub fn build_typed(n: &Node, env: &Env) -> Built {
     Op::Last => Built::V(src.last()),
     Op::Reduce => Built::V(src.reduce(move |(a, b): (V, V)| {
       let _ = &t;
+      crate::s_val::user_fn_point();
       a + b
     })),
     Op::Sum => Built::V(src.sum()),
@@ -441,6 +449,7 @@ pub fn build_typed(n: &Node, env: &Env) -> Built {
         src
           .map(move |x: V| {
             let _ = &t;
+            crate::s_val::user_fn_point();
             match x.d {
               D::I(k) if k == c => Material::Complete,
               D::I(k) if k == e => Material::Error(err(40 + k)),
@@ -455,6 +464,7 @@ pub fn build_typed(n: &Node, env: &Env) -> Built {
       let k = *k;
       Built::Nested(observables::defer(move || {
         let _ = &t;
+        crate::s_val::user_fn_point();
         src.window_with_count(k)
       }))
     }
@@ -462,18 +472,21 @@ pub fn build_typed(n: &Node, env: &Env) -> Built {
       let t = t.clone();
       src.group_by(move |x: V| {
         let _ = &t;
+        crate::s_val::user_fn_point();
         x.d.i().rem_euclid(2)
       })
     })),
     Op::WindowFlat(k) => Built::V(src.window_with_count(*k).flat_map(|w| w)),
     Op::GroupByParity => Built::Nested(src.group_by(move |x: V| {
       let _ = &t;
+      crate::s_val::user_fn_point();
       x.d.i().rem_euclid(2)
     })),
     Op::GroupByParityFlat => Built::V(
       src
         .group_by(move |x: V| {
           let _ = &t;
+          crate::s_val::user_fn_point();
           x.d.i().rem_euclid(2)
         })
         .flat_map(|w| w),
@@ -483,6 +496,7 @@ pub fn build_typed(n: &Node, env: &Env) -> Built {
       let p = *p;
       Built::V(src.retry_when(move |e| {
         let _ = &t;
+        crate::s_val::user_fn_point();
         p.test(err_code(&e))
       }))
     }
@@ -490,12 +504,14 @@ pub fn build_typed(n: &Node, env: &Env) -> Built {
       let r = *r;
       Built::V(src.on_error_resume_next(move |e| {
         let _ = &t;
+        crate::s_val::user_fn_point();
         resume_obs(r, &e)
       }))
     }
     Op::ObserveOnDefault => Built::V(src.observe_on(schedulers::default_scheduler())),
     Op::Defer => Built::V(observables::defer(move || {
       let _ = &t;
+      crate::s_val::user_fn_point();
       src.clone()
     })),
     Op::RefCount => Built::V(src.ref_count().observable()),
@@ -508,6 +524,7 @@ pub fn build_typed(n: &Node, env: &Env) -> Built {
     Op::Zip => Built::VecV(src.zip(&extra)),
     Op::CombineLatest => Built::V(src.combine_latest(&extra, move |v: Vec<V>| {
       let _ = &t;
+      crate::s_val::user_fn_point();
       V { d: D::L(v.iter().map(|x| x.d.clone()).collect()), tok: v.first().and_then(|x| x.tok.clone()) }
     })),
     Op::Amb => Built::V(src.amb(&extra)),
@@ -525,6 +542,7 @@ pub fn build_typed(n: &Node, env: &Env) -> Built {
       Built::V(utils::ready_set_go(
         move || {
           let _ = &t;
+          crate::s_val::user_fn_point();
           for ev in &script {
             push(ev);
           }
@@ -538,6 +556,7 @@ pub fn build_typed(n: &Node, env: &Env) -> Built {
       let toks = env.toks.clone();
       Built::V(src.flat_map(move |x: V| {
         let _ = &t;
+        crate::s_val::user_fn_point();
         match k {
           Inner::Just10 => observables::just(x.with(D::I(x.d.i() * 10))),
           Inner::Empty => observables::empty(),
